@@ -310,10 +310,17 @@ def configs(tier, seed):
     return out
 
 
+def _dispatch(fn, args):
+    return fn(*args)
+
+
 def run(tier, seed):
     rep = Report(PID, tier, seed, "translation_validation")
     cfgs = configs(tier, seed)
-    for d in pmap(task, [(p, cse, k, tier, seed) for p, cse, k in cfgs]):
+    from . import cfgrb
+
+    tasks = [(task, (p, cse, k, tier, seed)) for p, cse, k in cfgs] + [(cfgrb.task, (PID, *c, tier, seed)) for c in cfgrb.combos(tier)]
+    for d in pmap(_dispatch, tasks):
         rep.merge(d)
     rep.bounds = {"configurations": [f"{p.id}/cse={int(c)}/k={k}" for p, c, k in cfgs], "inputs": "all real dt/state/control/calibration/readings, all symmetric P; noise = the program's concrete numbers", "outside": "floating-point rounding; real Eigen"}
     rep.assumptions = ["matrix inverse is a shared cut-point on both sides (arguments proved equal first)", "python validity gates assumed to pass (the C++ side has none)", "stand-in Eigen/Dense"]
@@ -328,6 +335,10 @@ def run(tier, seed):
 def replay(path):
     with open(path) as f:
         r = json.load(f)
+    if r.get("info", {}).get("kind") == "cfgrb":
+        from . import cfgrb
+
+        return cfgrb.replay(PID, r["info"])
     info = r["info"]
     ps = {}
     for p, _, _ in configs("thorough", int(r.get("seed", 0))) + configs("quick", 0):
